@@ -145,7 +145,7 @@ def _border_case(desc, ctx):
                     ctx.violation("cycle_all", "all", "walk_leaves_border_edges", "a cycle is not a walk along border edges", cycle=c[:30])
                     break
     # border polyline
-    if loops:
+    if True:  # also with no border at all: an empty polyline and an empty map
         ok, m3 = ctx.call("build", build.surface, V, F, monitor="polyline")
         ok, res = ctx.call("extract_boundary_of_surface", M.processing.extract_boundary_of_surface, m3, monitor="polyline", abort=False)
         if ok:
